@@ -22,25 +22,22 @@ Proof. change (removelast ((ref :: sol) ++ [va]) = ref :: sol). apply removelast
 Definition matB (B2 : str -> str -> A) (l : list str) := map (fun a => map (B2 a) l) l.
 
 (* ---- Thermodynamics.py ---------------------------------------------------------------- *)
+(* The translator emits one definition per value that leaves the index algebra (returned, passed on, stored),
+   after substituting temporaries: the definitions are the same for named / inlined temporaries, renamed index
+   variables, nested np.argsort(np.argsort(...)) and merged / split indexing steps. *)
 Lemma b_tracer (B : str -> A) :
   gen_Thermodynamics_tracerDiffusivitySingle_1 d els (map B (sorted lexleb (ref :: sol))) = map B (ref :: sol).
 Proof. unfold gen_Thermodynamics_tracerDiffusivitySingle_1. rewrite rl. apply (str_wrap_full d B (ref :: sol)). Qed.
 
 Lemma b_interdiffusivity (B2 : str -> str -> A) :
-  gen_Thermodynamics_interdiffusivitySingle_3 d els (matB B2 (sorted lexleb sol)) = matB B2 sol.
-Proof. unfold gen_Thermodynamics_interdiffusivitySingle_3. rewrite rl. cbn [tl]. apply (str_wrap_matrix d B2 sol). Qed.
-
-Lemma b_interdiffusivity_steps (M : list (list A)) :
-  gen_Thermodynamics_interdiffusivitySingle_2 d els M = gen_Thermodynamics_interdiffusivitySingle_3 d els M /\
-  gen_Thermodynamics_interdiffusivitySingle_1 d els M = reorder [] M (unsortIdx lexleb (tl (removelast els))).
-Proof. split; reflexivity. Qed.
+  gen_Thermodynamics_interdiffusivitySingle_1 d els (matB B2 (sorted lexleb sol)) = matB B2 sol.
+Proof. unfold gen_Thermodynamics_interdiffusivitySingle_1. rewrite rl. cbn [tl]. apply (str_wrap_matrix d B2 sol). Qed.
 
 Lemma b_df_sampling (B : str -> A) :
-  gen_Thermodynamics_getDrivingForceSampling_1 d els (map B (sorted lexleb (ref :: sol))) = map B (ref :: sol) /\
-  gen_Thermodynamics_getDrivingForceSampling_2 d els (map B (sorted lexleb (ref :: sol))) = map B sol.
+  gen_Thermodynamics_getDrivingForceSampling_1 d els (map B (sorted lexleb (ref :: sol))) = map B sol.
 Proof.
-  unfold gen_Thermodynamics_getDrivingForceSampling_1, gen_Thermodynamics_getDrivingForceSampling_2. rewrite rl.
-  split; [apply (str_wrap_full d B (ref :: sol)) | apply (proj2 (str_wrap_tail d B (ref :: sol)))].
+  unfold gen_Thermodynamics_getDrivingForceSampling_1. rewrite rl.
+  apply (proj2 (str_wrap_tail d B (ref :: sol))).
 Qed.
 
 Lemma b_df_approx (B : str -> A) :
@@ -68,25 +65,22 @@ Proof.
   split; apply (str_wrap_full d B (ref :: sol)).
 Qed.
 
+(* dc (numerator), Gba, c_eq_alpha, c_eq_beta of the CurvatureOutput *)
 Lemma b_curvature_factor (B : str -> A) (B2 : str -> str -> A) : NoDup (ref :: sol) ->
+  gen_MultiTherm_curvatureFactorFromEq_1 d els (map B (sorted lexleb sol)) = map B sol /\
   gen_MultiTherm_curvatureFactorFromEq_2 d els (matB B2 (sorted lexleb sol)) = matB B2 sol /\
-  gen_MultiTherm_curvatureFactorFromEq_3 d els (map B (sorted lexleb sol)) = map B sol /\
-  gen_MultiTherm_curvatureFactorFromEq_4 d els (map B (sorted lexleb (ref :: sol))) = map B sol /\
-  gen_MultiTherm_curvatureFactorFromEq_5 d els (map B (sorted lexleb (ref :: sol))) = map B sol.
+  gen_MultiTherm_curvatureFactorFromEq_3 d els (map B (sorted lexleb (ref :: sol))) = map B sol /\
+  gen_MultiTherm_curvatureFactorFromEq_4 d els (map B (sorted lexleb (ref :: sol))) = map B sol.
 Proof.
   intros Hn.
-  unfold gen_MultiTherm_curvatureFactorFromEq_2, gen_MultiTherm_curvatureFactorFromEq_3,
-         gen_MultiTherm_curvatureFactorFromEq_4, gen_MultiTherm_curvatureFactorFromEq_5.
+  unfold gen_MultiTherm_curvatureFactorFromEq_1, gen_MultiTherm_curvatureFactorFromEq_2,
+         gen_MultiTherm_curvatureFactorFromEq_3, gen_MultiTherm_curvatureFactorFromEq_4.
   rewrite rl. cbn [tl hd]. repeat split.
-  - apply (str_wrap_matrix d B2 sol).
   - apply (str_wrap_full d B sol).
+  - apply (str_wrap_matrix d B2 sol).
   - apply (str_wrap_solutes d B ref sol Hn).
   - apply (str_wrap_solutes d B ref sol Hn).
 Qed.
-
-Lemma b_curvature_factor_rows (M : list (list A)) :
-  gen_MultiTherm_curvatureFactorFromEq_1 d els M = reorder [] M (unsortIdx lexleb (tl (removelast els))).
-Proof. reflexivity. Qed.
 
 (* ---- DiffusionParameters.py / HomogenizationParameters.py ------------------------------------- *)
 Lemma b_mobility (B : str -> A) :
@@ -113,19 +107,12 @@ Proof. exact (b_tracer d ref va sol B). Qed.
 Print Assumptions C11_gen_tracer_diffusivity.
 
 Theorem C11_gen_interdiffusivity {A} (d : A) ref va sol (B2 : str -> str -> A) :
-  gen_Thermodynamics_interdiffusivitySingle_3 d (ref :: sol ++ [va]) (matB B2 (sorted lexleb sol)) = matB B2 sol.
+  gen_Thermodynamics_interdiffusivitySingle_1 d (ref :: sol ++ [va]) (matB B2 (sorted lexleb sol)) = matB B2 sol.
 Proof. exact (b_interdiffusivity d ref va sol B2). Qed.
 Print Assumptions C11_gen_interdiffusivity.
 
-Theorem C11_gen_interdiffusivity_steps {A} (d : A) ref va sol (M : list (list A)) :
-  gen_Thermodynamics_interdiffusivitySingle_2 d (ref :: sol ++ [va]) M = gen_Thermodynamics_interdiffusivitySingle_3 d (ref :: sol ++ [va]) M /\
-  gen_Thermodynamics_interdiffusivitySingle_1 d (ref :: sol ++ [va]) M = reorder [] M (unsortIdx lexleb (tl (removelast (ref :: sol ++ [va])))).
-Proof. exact (b_interdiffusivity_steps d ref va sol M). Qed.
-Print Assumptions C11_gen_interdiffusivity_steps.
-
 Theorem C11_gen_driving_force_sampling {A} (d : A) ref va sol (B : str -> A) :
-  gen_Thermodynamics_getDrivingForceSampling_1 d (ref :: sol ++ [va]) (map B (sorted lexleb (ref :: sol))) = map B (ref :: sol) /\
-  gen_Thermodynamics_getDrivingForceSampling_2 d (ref :: sol ++ [va]) (map B (sorted lexleb (ref :: sol))) = map B sol.
+  gen_Thermodynamics_getDrivingForceSampling_1 d (ref :: sol ++ [va]) (map B (sorted lexleb (ref :: sol))) = map B sol.
 Proof. exact (b_df_sampling d ref va sol B). Qed.
 Print Assumptions C11_gen_driving_force_sampling.
 
@@ -152,17 +139,12 @@ Proof. exact (b_interfacial d ref va sol B). Qed.
 Print Assumptions C11_gen_interfacial_composition.
 
 Theorem C11_gen_curvature_factor {A} (d : A) ref va sol (B : str -> A) (B2 : str -> str -> A) : NoDup (ref :: sol) ->
+  gen_MultiTherm_curvatureFactorFromEq_1 d (ref :: sol ++ [va]) (map B (sorted lexleb sol)) = map B sol /\
   gen_MultiTherm_curvatureFactorFromEq_2 d (ref :: sol ++ [va]) (matB B2 (sorted lexleb sol)) = matB B2 sol /\
-  gen_MultiTherm_curvatureFactorFromEq_3 d (ref :: sol ++ [va]) (map B (sorted lexleb sol)) = map B sol /\
-  gen_MultiTherm_curvatureFactorFromEq_4 d (ref :: sol ++ [va]) (map B (sorted lexleb (ref :: sol))) = map B sol /\
-  gen_MultiTherm_curvatureFactorFromEq_5 d (ref :: sol ++ [va]) (map B (sorted lexleb (ref :: sol))) = map B sol.
+  gen_MultiTherm_curvatureFactorFromEq_3 d (ref :: sol ++ [va]) (map B (sorted lexleb (ref :: sol))) = map B sol /\
+  gen_MultiTherm_curvatureFactorFromEq_4 d (ref :: sol ++ [va]) (map B (sorted lexleb (ref :: sol))) = map B sol.
 Proof. exact (b_curvature_factor d ref va sol B B2). Qed.
 Print Assumptions C11_gen_curvature_factor.
-
-Theorem C11_gen_curvature_factor_rows {A} (d : A) ref va sol (M : list (list A)) :
-  gen_MultiTherm_curvatureFactorFromEq_1 d (ref :: sol ++ [va]) M = reorder [] M (unsortIdx lexleb (tl (removelast (ref :: sol ++ [va])))).
-Proof. exact (b_curvature_factor_rows d ref va sol M). Qed.
-Print Assumptions C11_gen_curvature_factor_rows.
 
 Theorem C11_gen_mobility {A} (d : A) ref va sol (B : str -> A) :
   let u := gen_DiffusionParameters_computeMobility_1 (ref :: sol ++ [va]) in
